@@ -241,6 +241,30 @@ func jobsMidBatch(tier string) []Job {
 	return chunk(map[string]any{"fix": "std", "init": []string{"A w/d", "A w/f"}}, hs, vars, 12)
 }
 
+// jobsDirected: histories that are too deep or too particular for the searches, each named by a delivered change.
+func jobsDirected(tier string) []Job {
+	var hs [][]string
+	// a listed name comes to name a new inode while the old inode (and so its kernel watch) stays alive - an open
+	// descriptor, a spare hard link, an atomic rename onto it - then Add again and changes to the new file
+	for _, keep := range [][]string{{"open w/f", "rm w/f", "touch w/f"}, {"ln w/f w/h", "rm w/f", "touch w/f"}, {"ln w/f w/h", "touch w/g", "mv w/g w/f"},
+		{"open w/f", "touch w/g ;; mv w/g w/f"}, {"ln w/f w/h ;; rm w/f ;; touch w/f"}} {
+		for _, tail := range [][]string{{"A w/f", "write w/f", "chmod w/f ;; trunc w/f", "rm w/f"}, {"A w/f ;; write w/f", "mv w/f w/g2"}} {
+			hs = append(hs, append(append([]string{}, keep...), tail...))
+		}
+	}
+	// a watched file below a watched directory but inside an unwatched sub-directory: nobody else reports its removal
+	hs = append(hs, []string{"A w/d/s/x", "write w/d/s/x", "rm w/d/s/x"}, []string{"A w/d/s/x", "write w/d/s/x ;; rm w/d/s/x", "touch w/d/s/x"}, []string{"A w/d/s/x", "mv w/d/s/x w/d/s/y"})
+	// two records of one batch that translate to the same operation on the same name (a create, then a move in onto
+	// it): both are notifications, both are reported
+	hs = append(hs, []string{"touch w/d/n ;; mv w/o/p w/d/n"}, []string{"touch w/d/n ;; mv w/o/p w/d/n ;; rm w/d/n"}, []string{"touch w/d/n", "mv w/o/p w/d/n"}, []string{"mkdir w/d/m ;; rmdir w/d/m ;; mkdir w/d/m"})
+	// a rename onto an entry that is watched in its own right: Rename and Create stay adjacent
+	hs = append(hs, []string{"A w/d/a", "mv w/d/b w/d/a"}, []string{"A w/d/a", "mv w/d/b w/d/a ;; touch w/d/b"}, []string{"A w/d/a", "mv w/o/p w/d/a", "write w/d/a"})
+	for _, keep := range [][]string{{"open w/d/a", "rm w/d/a", "touch w/d/a"}, {"ln w/d/a w/h", "rm w/d/a", "touch w/d/a"}, {"ln w/d/a w/h", "mv w/d/b w/d/a"}} {
+		hs = append(hs, append(append([]string{"A w/d/a"}, keep...), "A w/d/a", "write w/d/a", "chmod w/d/a", "rm w/d/a"))
+	}
+	return chunk(map[string]any{"fix": "std", "init": []string{"A w/d", "A w/f"}}, hs, nil, 4)
+}
+
 // jobsRotation: the log-rotation family of histories on a watched file and on
 // an entry of a watched directory (delete or rename while a descriptor is held
 // open, recreate, re-add, close the old descriptor, use the new file), too long
@@ -264,6 +288,7 @@ func jobsRotation(tier string) []Job {
 func eventsJobs(tier string) []Job {
 	var jobs []Job
 	jobs = append(jobs, jobsRotation(tier)...)
+	jobs = append(jobs, jobsDirected(tier)...)
 	jobs = append(jobs, jobsMidBatch(tier)...)
 	jobs = append(jobs, jobsNames(tier, []string{"w/d"}, "")...)
 	jobs = append(jobs, jobsBufferEdges(tier)...)
@@ -472,17 +497,6 @@ func c10Jobs(tier string) []Job {
 		{"mv w/f w/g ;; rm w/g"}, {"mv w/f w/g", "rm w/g"}, {"mv w/d w/e ;; rmr w/e"}, {"mv w/d w/e ;; rm w/e/a ;; rm w/e/b"},
 		{"rm w/f ;; R w/f"}, {"rm w/f", "R w/f"}, {"rmr w/d ;; mkdir w/d ;; A w/d"}, {"rmr w/d ;; mkdir w/d", "A w/d"}, {"rmr w/d", "mkdir w/d ;; A w/d"},
 		{"rm w/f ;; touch w/f ;; A w/f"}, {"mv w/f w/g ;; touch w/f ;; A w/f ;; rm w/g"},
-	}
-	// a listed name comes to name a new inode while the old inode (and so its kernel watch) stays alive - an open
-	// descriptor, a spare hard link, an atomic rename onto it - then Add again and changes to the new file
-	for _, keep := range [][]string{{"open w/f", "rm w/f", "touch w/f"}, {"ln w/f w/h", "rm w/f", "touch w/f"}, {"ln w/f w/h", "touch w/g", "mv w/g w/f"},
-		{"open w/f", "touch w/g ;; mv w/g w/f"}, {"ln w/f w/h ;; rm w/f ;; touch w/f"}} {
-		for _, tail := range [][]string{{"A w/f", "write w/f", "chmod w/f ;; trunc w/f", "rm w/f"}, {"A w/f ;; write w/f", "mv w/f w/g2"}} {
-			hs = append(hs, append(append([]string{}, keep...), tail...))
-		}
-	}
-	for _, keep := range [][]string{{"open w/d/a", "rm w/d/a", "touch w/d/a"}, {"ln w/d/a w/h", "rm w/d/a", "touch w/d/a"}, {"ln w/d/a w/h", "mv w/d/b w/d/a"}} {
-		hs = append(hs, append(append([]string{"A w/d/a"}, keep...), "A w/d/a", "write w/d/a", "chmod w/d/a", "rm w/d/a"))
 	}
 	jobs = append(jobs, chunk(map[string]any{"fix": "std", "init": []string{"A w/d", "A w/f"}}, hs, nil, 3)...)
 	return jobs
